@@ -119,6 +119,7 @@ class Frame:
         self.selfobj = selfobj
         self._pre = {}
         self.mutated = set()            # local names whose object was updated in place since they were bound
+        self.loop_alias = {}            # loop variable -> text of the sequence whose element it currently IS (same object), until it is rebound
         self.mod = func.mod
         self._bind(bound)
 
@@ -506,6 +507,8 @@ class Frame:
             pairs = _alias_pairs(s.target, s.iter)
             for i, e in enumerate(items):
                 self.assign(s.target, e, s)
+                for elem_t, src in pairs:
+                    self.loop_alias[elem_t.id] = ast.unparse(src)
                 self.breaks.append([])
                 out = self.block(s.body)
                 for kind, cond, e_ in reversed(self.breaks.pop()):      # conditional `continue`: its state joins the end of this iteration
@@ -514,7 +517,7 @@ class Frame:
                     out = FALL
                 # the loop variable aliases the list element: in-place updates through it are updates of the element
                 for elem_t, src in pairs:
-                    if elem_t.id in self.mutated and self.is_place(src):
+                    if elem_t.id in self.mutated and elem_t.id in self.loop_alias and self.is_place(src):
                         cur = self.place_get(src)
                         if cur[0] == 'list' and i < len(cur[1]):
                             lst = list(cur[1])
@@ -522,6 +525,8 @@ class Frame:
                             self.place_set(src, ('list', tuple(lst)))
                 if out != FALL:
                     return out
+            for elem_t, src in pairs:
+                self.loop_alias.pop(elem_t.id, None)
             if s.orelse:
                 return self.block(s.orelse)
             return FALL
@@ -653,6 +658,7 @@ class Frame:
             self.env[t.id] = v
             self.mutated.discard(t.id)
             self.alias.pop(t.id, None)
+            self.loop_alias.pop(t.id, None)
         elif isinstance(t, (ast.Tuple, ast.List)):
             for i, e in enumerate(t.elts):
                 if isinstance(e, ast.Starred):
